@@ -883,4 +883,168 @@ theorem execUnit_linv (env : Env) (hfr : env.forkExecRollback = true) (st : St) 
             injection hu with _ _ h3; subst h3
             rw [hcomm]; exact TxF.commit_idle tm
 
+
+/-! ### clean states: coherent, between transactions, no pending key list, access flags off -/
+
+/-- the LocalDB as block execution leaves it between units. -/
+structure LClean (l : LocalDB) : Prop where
+  inv : Inv l
+  idle : l.intx = false
+  keys : l.keys = []
+  dr : l.disableread = false
+  dw : l.disablewrite = false
+
+theorem phaseFlags_ff (env : Env) (same : Bool) : phaseFlags env same false false = (false, false) := by
+  unfold phaseFlags
+  cases env.forkLocalDBAccess <;> cases same <;> rfl
+
+theorem LClean.erase_eq {l : LocalDB} (h : LClean l) :
+    l.erase = idleForm l.remote.main l.remote.cache false false := by
+  obtain ⟨a, b, c⟩ := h.inv.idle h.idle
+  have hr := h.inv.rIdle c
+  have e := remote_idle_eq l.remote hr.1 hr.2
+  have ht := h.inv.txkvs
+  have hi := h.idle
+  have hk := h.keys
+  have hdr := h.dr
+  have hdw := h.dw
+  cases l with
+  | mk cache txcache keys intx hasbegin kvs txkvs dr dw remote =>
+    simp only at a b c e ht hi hk hdr hdw
+    subst a; subst b; subst c; subst ht; subst hi; subst hk; subst hdr; subst hdw
+    unfold erase idleForm
+    simp only
+    rw [e]
+
+theorem initSt_lclean (store : List (Bytes × Val)) (main : List (Bytes × Bytes)) :
+    LClean (initSt store main).ldb :=
+  ⟨(initSt_linv store main).1, rfl, rfl, rfl, rfl⟩
+
+theorem TxF.rollback_clean {l0 l : LocalDB} (h : TxF l0 false false l) : LClean l.rollback := by
+  have e := rollback_eq l h.inv h.frame.intx
+  obtain ⟨a, b, _⟩ := rollback_inv l h.inv h.frame.intx
+  refine ⟨a, b, ?_, ?_, ?_⟩
+  · rw [e]
+  · rw [e]; exact h.dr
+  · rw [e]; exact h.dw
+
+theorem commit_fields (l : LocalDB) : l.commit.keys = [] ∧ l.commit.disableread = l.disableread ∧
+    l.commit.disablewrite = l.disablewrite := by
+  unfold LocalDB.commit
+  simp only [save_cache]
+  have hs : l.save.disableread = l.disableread ∧ l.save.disablewrite = l.disablewrite := by
+    unfold LocalDB.save
+    cases l.kvs <;> exact ⟨rfl, rfl⟩
+  cases hb : l.save.hasbegin <;> simp [LocalDB.resetTx, hb, hs.1, hs.2]
+
+theorem TxF.commit_clean {l0 l : LocalDB} (h : TxF l0 false false l) : LClean l.commit := by
+  obtain ⟨a, b⟩ := commit_inv l h.inv h.frame.intx
+  obtain ⟨k, r, w⟩ := commit_fields l
+  exact ⟨a, b, k, by rw [r]; exact h.dr, by rw [w]; exact h.dw⟩
+
+theorem begin_txf_clean (env : Env) (hfr : env.forkExecRollback = true) (st : St) (h : LClean st.ldb) :
+    TxF st.ldb false false (st.begin env).ldb := by
+  have := begin_txf env hfr st h.inv h.idle
+  rw [h.dr, h.dw] at this
+  exact this
+
+theorem execTxOne_txf_ff (env : Env) (st : St) (feelog : Receipt) (tx : Tx) (l0 : LocalDB)
+    (h : TxF l0 false false st.ldb) : (execTxOne env st feelog tx).TxAll l0 false false := by
+  have := execTxOne_txf env st feelog tx l0 false false h
+  rw [phaseFlags_ff] at this
+  exact this
+
+def MembersRes.TxAllFF (l0 : LocalDB) : MembersRes → Prop
+  | .ok _ _ st => TxF l0 false false st.ldb
+  | .failed _ _ _ st => TxF l0 false false st.ldb
+  | .blockPanic => True
+
+theorem execMembers_txf_ff (env : Env) (txs : List Tx) (st : St) (rs : List Receipt) (obs : List (List Obs))
+    (l0 : LocalDB) (h : TxF l0 false false st.ldb) : (execMembers env txs st rs obs).TxAllFF l0 := by
+  induction txs generalizing st rs obs with
+  | nil => exact h
+  | cons tx txs ih =>
+    unfold execMembers
+    have hp := execTxOne_txf_ff env st emptyPack tx l0 h
+    cases hr : execTxOne env st emptyPack tx with
+    | blockPanic => trivial
+    | failed r st2 o => rw [hr] at hp; exact hp
+    | ok r st2 o => rw [hr] at hp; exact ih st2 _ _ hp
+
+/-- block execution leaves the LocalDB clean at every unit boundary. -/
+theorem execUnit_lclean (env : Env) (hfr : env.forkExecRollback = true) (st : St) (h : LClean st.ldb)
+    (u : TxUnit) (rs : List Receipt) (obs : List (List Obs)) (st' : St)
+    (hu : execUnit env st u = .done rs obs st') : LClean st'.ldb := by
+  have hroll : ∀ s : St, (s.rollback env).ldb = s.ldb.rollback := fun s => by simp [St.rollback, hfr]
+  have hcomm : ∀ s : St, (s.commit env).ldb = s.ldb.commit := fun s => by simp [St.commit, hfr]
+  cases u with
+  | single tx =>
+    simp only [execUnit] at hu
+    unfold execTx at hu
+    split at hu
+    · injection hu with _ _ h3; subst h3; exact h
+    · cases hfe : execFee env st tx with
+      | panic => rw [hfe] at hu; cases hu
+      | err e st1 =>
+        rw [hfe] at hu
+        injection hu with _ _ h3; subst h3
+        rw [execFee_err_ldb env st tx e st1 hfe]; exact h
+      | ok feelog st1 =>
+        rw [hfe] at hu
+        simp only at hu
+        have hl := execFee_ldb env st tx feelog st1 hfe
+        have hb := begin_txf_clean env hfr st1 (by rw [hl]; exact h)
+        have t := execTxOne_txf_ff env (st1.begin env) feelog tx _ hb
+        cases hA : execTxOne env (st1.begin env) feelog tx with
+        | blockPanic => rw [hA] at hu; cases hu
+        | failed r2 st2 o2 =>
+          rw [hA] at hu t
+          injection hu with _ _ h3; subst h3
+          rw [hroll]; exact TxF.rollback_clean t
+        | ok r2 st2 o2 =>
+          rw [hA] at hu t
+          injection hu with _ _ h3; subst h3
+          rw [hcomm]; exact TxF.commit_clean t
+  | group txs =>
+    simp only [execUnit] at hu
+    unfold execTxGroup at hu
+    cases txs with
+    | nil => simp only at hu; injection hu with _ _ h3; subst h3; exact h
+    | cons head members =>
+      simp only at hu
+      cases hfe : execFee env st head with
+      | panic => rw [hfe] at hu; cases hu
+      | err e st1 =>
+        rw [hfe] at hu
+        injection hu with _ _ h3; subst h3
+        rw [execFee_err_ldb env st head e st1 hfe]; exact h
+      | ok feelog st1 =>
+        rw [hfe] at hu
+        simp only at hu
+        have hl := execFee_ldb env st head feelog st1 hfe
+        have hb := begin_txf_clean env hfr st1 (by rw [hl]; exact h)
+        have t := execTxOne_txf_ff env (st1.begin env) feelog head _ hb
+        cases hA : execTxOne env (st1.begin env) feelog head with
+        | blockPanic => rw [hA] at hu; cases hu
+        | failed r2 st2 o2 =>
+          rw [hA] at hu t
+          injection hu with _ _ h3; subst h3
+          rw [hroll]; exact TxF.rollback_clean t
+        | ok r2 st2 o2 =>
+          rw [hA] at hu t
+          simp only at hu
+          have tm := execMembers_txf_ff env members st2 [] [] _ t
+          cases hM : execMembers env members st2 [] [] with
+          | blockPanic => rw [hM] at hu; cases hu
+          | failed nb r obsM st3 =>
+            rw [hM] at hu tm
+            injection hu with _ _ h3; subst h3
+            rw [hroll]; exact TxF.rollback_clean tm
+          | ok rsM obsM st3 =>
+            rw [hM] at hu tm
+            injection hu with _ _ h3; subst h3
+            rw [hcomm]; exact TxF.commit_clean tm
+
+
+
 end C11
